@@ -25,7 +25,8 @@ REQUIRED_THEOREMS = ['Properties.C11.' + t for t in (
     'householder_init_rows', 'householder_ctor_rejects', 'householder_init_usable',
     'lu_executed', 'qr_executed', 'svd_executed',
     'lu_fresh_usable', 'qr_fresh_usable', 'svd_fresh_usable', 'svd_odd_count_rejected', 'lu_identity_init_is_identity', 'svd_identity_init_is_identity',
-    'identity_init_needs_eps_lt_one', 'lu_passes_return_logabsdet', 'householder_passes_return_zero')]
+    'identity_init_needs_eps_lt_one', 'lu_passes_return_logabsdet', 'householder_passes_return_zero',
+    'naive_inverse_is_inverse', 'naive_logabsdet_is_log_abs_det', 'naive_pivot_ne_zero', 'naive_pivots_prod', 'gaussInverse_ok', 'gaussInverse_singular', 'gaussInverse_error_iff', 'naive_roundtrip_executed', 'naive_combined_executed',)]
 RULE = ("cases = (class in LU/QR/SVD/Naive/HouseholderSequence, features 1..6, Householder count 1..13 (odd, even, > features, "
         "> 2*features; SVD even only), init mode (identity_init / orthogonal_initialization True/False), parameter kind "
         "(fresh initialisation in native float32, fresh in float64, seeded random parameters in float64 incl. non-unit "
